@@ -96,7 +96,7 @@ def automan_row(rnd, f, code, sow, har, har_latest, fixed_sow, fixed_har, off1=N
         put(143, "%-3s" % org[0]); put(149, "%3d" % org[1]); put(156, org[2] + "%-2d" % org[3])
     else:
         put(143, "---"); put(149, "  0"); put(156, "000")
-    il, idp, imx = rnd.choice([40, 60, 80, 95]), rnd.choice([30, 60, 90]), rnd.choice([5, 10, 20, 50])
+    il, idp, imx = rnd.choice([40, 60, 80, 95]), rnd.choice([30, 60, 90]), rnd.choice([0, 1, 5, 10, 20, 50])
     put(163, "%3d" % il); put(170, "%3d" % idp); put(177, "%3d" % imx)
     automan_row.last = {"irrst1": float(s1), "irrst2": float(s2), "irrlow": il / 100.0, "irrdep": idp / 10.0, "irrmax": float(imx),
                         "ndem1": float(nd[0]), "ndem2": float(nd[1]), "ndem3": float(nd[2])}
@@ -336,7 +336,46 @@ def _run(ctx):
     cases += [make_case(rnd, n + i, force_sw=rnd.choice([3, 7, 11, 15]), org_p=1.0, skip=True) for i in range(nskip)]
     # dedicated case of a recorded finding: organic fertiliser "H" on the last rotation entry with automatic sowing + fertilisation
     cases += [make_case(rnd, n + nskip, force_sw=3, org_p=1.0, lastskip=True)]
-    _cache["run"] = run_cases(ctx, cases, "c16_", extreme=True)
+    rc, cases, err, ex = run_cases(ctx, cases, "c16_", extreme=True)
+    # second pass (boundary of the rule that moves a passed fixed sowing date): fixed sowing + automatic harvest; the next
+    # entry's sowing date is placed -2, 1, 2, 3, 4, 5 days after the harvest the first pass decided by its condition
+    import copy
+    more = []
+    for cs in cases:
+        if rc != 0 or cs["sw"][0] or not cs["sw"][3] or len(more) >= (60 if ctx.thorough else 8):
+            continue
+        trig = [r for r in cs["hdec"] if r["e"][0] == 0 and r["e"][2] == r["zeit"] and r["akf"] >= 1]
+        if not trig:
+            continue
+        r = trig[0]; k = r["akf"]; h = r["zeit"]
+        if k >= len(cs["crops"]) or cs["crops"][k][3]["fixed_har"]:
+            continue
+        off = [-2, 1, 2, 3, 4, 5][len(more) % 6]
+        sow = numday(h + off)
+        spring = 3 <= sow.month <= 7
+        har = sow + datetime.timedelta(days=115) if spring else datetime.date(sow.year + 1, 7, 20)
+        if har > cs["end"] - datetime.timedelta(days=30):
+            continue
+        nc = {key: copy.deepcopy(cs[key]) for key in ("fmt", "begin", "end", "B", "E", "sw", "fid", "soil", "fcode", "weather", "row_seed", "spell_seed")}
+        nc["idx"] = len(cases) + len(more)
+        crops = copy.deepcopy(cs["crops"][:k + 1])
+        code = [c_ for c_ in (["SW", "SM", "K", "SOY"] if spring else ["WW", "WG", "WR"]) if c_ not in [x[0] for x in crops]][0]
+        # the file's harvest date of entry k only gives the year of the latest-harvest date; it must precede the new sowing date
+        kc = crops[k]
+        crops[k] = (kc[0], kc[1], min(kc[2], numday(h - 12)), kc[3])
+        rows = {c_: cs["rows"][c_] for c_ in cs["rows"] if c_ in [x[0] for x in crops] or c_.startswith("~")}
+        row, (w1, w2) = automan_row(rnd, nc["fmt"], code, sow, har, har + datetime.timedelta(days=10), False, False)
+        rows[code] = row
+        crops.append((code, sow, har, {"w1": w1, "w2": w2, "latest": har + datetime.timedelta(days=10), "fixed_sow": False, "fixed_har": False,
+                                       "org": None, "skip": False, "par": dict(automan_row.last)}))
+        nc["crops"], nc["rows"], nc["second_pass"] = crops, rows, {"harvest": h, "offset": off}
+        more.append(nc)
+    if more:
+        rc2, more, err2, _ = run_cases(ctx, more, "c16b_", extreme=True)
+        if rc2 != 0:
+            rc, err = rc2, err2
+        cases = cases + more
+    _cache["run"] = (rc, cases, err, ex)
     return _cache["run"]
 
 
@@ -360,6 +399,14 @@ def org_run(ctx):
         cases.append(cs)
     _cache["org"] = run_cases(ctx, cases, "c10org_")
     return _cache["org"]
+
+
+def rejected(cs):
+    """the code refused the generated input by design (run error 'tillage date ... before harvest ...': a tillage date inside the
+    growing period of a crop — here the date the crop-skip branch sets, pushed along under automatic harvest until it meets the
+    forced harvest date): not a property failure; counted in the evidence"""
+    r = cs.get("run")
+    return bool(r and not r["success"] and re.match(r"tillage date \S+ before harvest ", r.get("err") or ""))
 
 
 def has_skip(cs):
@@ -417,6 +464,9 @@ def build_records(cases, c, table=None):
     sow, hdec, hdec2, airr, af, hcur, rot, odu, skp = [], [], [], [], [], [], [], [], []
     for cs in cases:
         sws = sws_of(cs)
+        if rejected(cs):
+            c.bump("generated-input-rejected (tillage date inside a growing period)")
+            continue
         if cs["init"] is None or cs["run"] is None or not cs["run"]["success"] or cs["log"] is None or cs["final"] is None:
             c.mismatches.append({"kind": "run-failed", "case": cs["name"], "switches": sws, "err": (cs["run"] or {}).get("err", "no run record"),
                                  "crops": [(a, str(s), str(h)) for a, s, h, _ in cs["crops"]]})
@@ -593,6 +643,9 @@ def oracle(ctx, search):
             fails.append(Fail(key="%s:%s:%s" % (key, sws, tag), what=what, case=tag, switches=sws, format=FMTS[cs["fmt"]],
                               begin=str(cs["begin"]), end=str(cs["end"]), crops=[(a, str(s), str(h), {k: str(v) for k, v in (w or {}).items()}) for a, s, h, w in cs["crops"]],
                               automan=list(cs["rows"].values()), **kw))
+        if rejected(cs):
+            ctx.extra["generated_inputs_rejected"] = ctx.extra.get("generated_inputs_rejected", 0) + 1
+            continue
         if cs["run"] is None or not cs["run"]["success"] or cs["log"] is None or cs["crec"] is None:
             fail("run", "the run failed or wrote no crop/management file: %s" % ((cs["run"] or {}).get("err")))
             continue
@@ -656,7 +709,10 @@ def oracle(ctx, search):
             fixed_s = (not automan) or w["fixed_sow"]
             fixed_h = (not autohar)
             if fixed_s:
-                moved = autohar and prev_h is not None and sz == prev_h + 4 and daynum(s) < prev_h + 4
+                # crop.go:192-195/551-554: a fixed sowing date that has passed when the harvest is decided is moved to harvest + 4
+                # (decided on the harvest day itself by the condition, the day before when forced on the latest date)
+                prev_forced = k >= 2 and prev_h == daynum(crops[k - 1][3]["latest"])
+                moved = autohar and prev_h is not None and sz == prev_h + 4 and daynum(s) < prev_h - (1 if prev_forced else 0)
                 if daynum(s) <= E and sz != daynum(s) and not moved:
                     fail("fixed-sowing-date", "entry %d (%s): sown on %s, the rotation file says %s" % (k, code, sz and numday(sz), s))
             else:
@@ -741,6 +797,8 @@ def org_oracle(cases, table):
         def fail(key, what, **kw):
             fails.append(Fail(key="organic-%s:%s:%s" % (key, sws_of(cs), cs["name"]), what=what, case=cs["name"], switches=sws_of(cs),
                               crops=[(a, str(s), str(h), (w or {}).get("org")) for a, s, h, w in cs["crops"]], automan=list(cs["rows"].values()), **kw))
+        if rejected(cs):
+            continue
         if cs["run"] is None or not cs["run"]["success"] or cs["log"] is None:
             fail("run", "the run failed: %s" % ((cs["run"] or {}).get("err")))
             continue
